@@ -30,7 +30,7 @@ RULES = {
     "R11.4": "at most one try_send per subscriber per publish",
     "R11.5": "XPUB recv: handler gets a clone, caller the original; PUB: one spawned reader per peer feeding the handler",
     "R11.6": "subscriptions are per connection: registration replaces an existing entry (C04 R04.4) and starts with an empty list",
-    "R11.F": "foundation clauses re-evaluated as necessary conditions: " + ", ".join(['decoder', 'identity']),
+    "R11.F": "foundation clauses re-evaluated as necessary conditions: " + ", ".join(['decoder', 'identity', 'wakeup', 'trysend', 'pubreader']),
 }
 
 LIST_MUT = {"push", "remove", "retain", "clear", "drain", "truncate", "dedup", "pop", "swap_remove", "insert", "extend", "append", "resize", "retain_mut", "dedup_by", "dedup_by_key", "split_off"}
@@ -268,7 +268,7 @@ def check_send(f, rep, co, label):
     rep.floor("R11.3", "%s: delivery events on paths" % label, nd, 1)
 
 
-DEPENDS = ['decoder', 'identity']     # foundation groups re-evaluated as necessary conditions (rules/found.py)
+DEPENDS = ['decoder', 'identity', 'wakeup', 'trysend', 'pubreader']     # foundation groups re-evaluated as necessary conditions (rules/found.py)
 
 
 def run(ctx, f, rep):
